@@ -19,6 +19,8 @@ SAN_ENV = {
 COMMON_INC = lambda: ['-I%s/include' % REPO, '-I%s/src' % REPO, '-I' + HARNESS, '-DBITSERIALIZER_VERIF=1', '-I/usr/include/libxml2']
 FLAVOURS = {
     'asan': dict(cxx='g++', flags=['-std=c++17', '-O1', '-g1', '-fno-omit-frame-pointer', '-fsanitize=address,undefined', '-fsanitize=float-cast-overflow', '-fno-sanitize-recover=all'], ld=['-fsanitize=address,undefined']),
+    # same as asan, library built with the guarded hook BITSERIALIZER_VERIF_CHUNK_SIZE=32 (stream caches of 32 instead of 256 bytes)
+    'asan32': dict(cxx='g++', flags=['-std=c++17', '-O1', '-g1', '-fno-omit-frame-pointer', '-fsanitize=address,undefined', '-fsanitize=float-cast-overflow', '-fno-sanitize-recover=all', '-DBITSERIALIZER_VERIF_CHUNK_SIZE=32'], ld=['-fsanitize=address,undefined']),
     'opt': dict(cxx='g++', flags=['-std=c++17', '-O2'], ld=[]),
     'fuzz': dict(cxx='clang++', flags=['-std=gnu++17', '-O1', '-g', '-fsanitize=fuzzer-no-link,address,undefined', '-fno-sanitize-recover=undefined', '-fsanitize-ignorelist=' + os.path.join(HARNESS, 'ubsan_ignore.txt')], ld=['-fsanitize=fuzzer,address,undefined']),
     'tsan': dict(cxx='clang++', flags=['-std=gnu++17', '-O1', '-g', '-fsanitize=thread'], ld=['-fsanitize=thread']),
